@@ -1,6 +1,6 @@
 (* Property C13 — time-unit variants of a column differ exactly by the fixed factors. *)
 From Coq Require Import ZArith QArith Qcanon Bool String List.
-From GettsimModel Require Import Num Val Dag TimeConv.
+From GettsimModel Require Import Num Val Dag TimeConv Aggregation ConvSum.
 Import ListNotations.
 Open Scope Qc_scope.
 
@@ -35,3 +35,10 @@ Theorem C13_conversion_nodes : forall S, tc_all_ok S = true ->
                       parse_name a = Some (b, u2, g) /\ u1 <> u2 /\ qfrac num den = factor u2 u1.
 Proof. exact tc_all_ok_sound. Qed.
 Print Assumptions C13_conversion_nodes.
+
+(* conversion commutes with summation within groups, at the level of the aggregation model
+   (numpy_groupies sums): for every assignment of rows to groups, every factor and every finite column *)
+Theorem C13_conversion_commutes_with_group_sums : forall f g l, length g = length l -> all_fin l ->
+  grouped_total xq_add (xz 0) g (map (scale f) l) = map (scale f) (grouped_total xq_add (xz 0) g l).
+Proof. exact grouped_sum_scale. Qed.
+Print Assumptions C13_conversion_commutes_with_group_sums.
